@@ -66,8 +66,14 @@ def kernel_paths(it, m, f, args, max_paths=64):
 
 TECHNIQUE += '; the same theorem for the incompressible solid classes against the K -> infinity limit of the kernel (limit cross-checked on the extracted kernel at a pinned, very large K); whole-driver runs with the tidal type requested after another type'
 
+EXPLANATION += ' R05.12 no integer-literal power (negative, or >= 3) is taken of a quantity that stays an integer when the arguments are integers (numba types arithmetic by its arguments: 0 for a negative power, silent int64 wrap-around for a large one).'
+TECHNIQUE += '; syntactic type flow in numba-compiled kernels (integer-literal powers of integer-typed arguments)'
+
 def run(chk):
     repo = Repo(chk.repo)
+    # R05.12: integer arguments are values like any other; numba keeps them integers until they meet a float (an integer-literal power is taken first)
+    from .common import int_power_lint
+    int_power_lint(chk, repo, 'R05.12', ['TidalPy/tides/multilayer/heating.py', 'TidalPy/radial_solver/sensitivity.py'])
 
     it = Interp(repo, hooks={'branch': _solid_domain})      # `if r == 0.` is decided by the sign domain (r > 0 on the analysed region)
     m = repo.by_path('TidalPy/radial_solver/sensitivity.py')
